@@ -789,7 +789,7 @@ pub fn cmd_spec(args: &[String]) {
                         if !idx.is_empty() {
                             let i = *g.r.pick(&idx);
                             let body = v[i].clone();
-                            let (min, max) = *g.r.pick(&[(0, None), (0, Some(1)), (1, None)]);
+                            let (min, max) = *g.r.pick(&[(0, None), (0, Some(1)), (1, None), (0, None), (1, None), (2, None), (0, Some(2)), (1, Some(1)), (1, Some(2)), (2, Some(3)), (0, Some(0)), (3, Some(3))]);
                             let greedy = g.r.chance(2, 3);
                             v[i] = Ast::Quant { body: Box::new(body), min, max, greedy };
                         }
